@@ -141,7 +141,8 @@ func checkC13(ctx *core.Ctx, rep *core.Report) {
 			if nameSet[strings.TrimSpace(v)] {
 				continue
 			}
-			for _, o := range []lint.FilterOptions{{IncludeNames: []string{v}}, {ExcludeNames: []string{v}}, {IncludeNames: []string{n, v}}} {
+			for _, o := range []lint.FilterOptions{{IncludeNames: []string{v}}, {ExcludeNames: []string{v}}, {IncludeNames: []string{n, v}},
+				{IncludeNames: []string{n}, ExcludeNames: []string{v}}, {ExcludeNames: []string{n}, IncludeNames: []string{v}}, {ExcludeNames: []string{v, n}}} {
 				_, err := g.Filter(o)
 				rep.Inc("transitions")
 				rep.Inc("validated")
